@@ -621,7 +621,61 @@ func (g *gen) violate(c *colSpec) string {
 		}
 		g.rec = rec
 	}
+	// ---- the broken place far down: 5 .. 64 well-formed levels (any of the five recursion sites of a query, in
+	// any mixture) between it and where it stood. Validation, schema validation and execution walk the same
+	// structure; a bound, a budget or a cut-off in one of them that the others do not share shows here.
+	if g.r.Chance(8) {
+		n := 5 + g.r.Intn(60)
+		g.wrapDeep(c, q, n)
+		kind += "+nested-deep"
+	}
 	return kind
+}
+
+// wrapDeep puts n well-formed nesting levels around the query node q IN PLACE (whoever points at q now points
+// at the outermost level)
+func (g *gen) wrapDeep(c *colSpec, q *N, n int) {
+	inner := &N{}
+	*inner = *q
+	cur := inner
+	for i := 0; i < n; i++ {
+		cur = g.wrapOnce(c, cur)
+	}
+	*q = *cur
+}
+
+// one well-formed level around x: an `_and` / `_or` node, or a flat / vamana / text leaf of the collection with x as its filter
+func (g *gen) wrapOnce(c *colSpec, x *N) *N {
+	var hosts []prop
+	for _, p := range c.props {
+		if ((p.kind == "vectorFlat" || p.kind == "vectorVamana") && p.dim > 0 && p.dim <= 64) || p.kind == "text" {
+			hosts = append(hosts, p)
+		}
+	}
+	w := g.r.Intn(5)
+	if len(hosts) == 0 || w < 2 {
+		k := vh.Pick(g.r, []string{"_and", "_or"})
+		subs := Arr(x)
+		if g.r.Chance(30) {
+			rec := g.rec
+			g.rec = false
+			subs.A = append(subs.A, g.query(c, 3, true))
+			g.rec = rec
+			if g.r.Bool() {
+				subs.A[0], subs.A[1] = subs.A[1], subs.A[0]
+			}
+		}
+		return Obj("property", Str(k), k, subs)
+	}
+	p := vh.Pick(g.r, hosts)
+	switch p.kind {
+	case "vectorFlat":
+		return Obj("property", Str(p.path), "vectorFlat", Obj("vector", g.propValue(p), "operator", Str("near"), "limit", Int(int64(1+g.r.Intn(75))), "filter", x))
+	case "vectorVamana":
+		return Obj("property", Str(p.path), "vectorVamana", Obj("vector", g.propValue(p), "operator", Str("near"), "searchSize", Int(75), "limit", Int(int64(1+g.r.Intn(75))), "filter", x))
+	default:
+		return Obj("property", Str(p.path), "text", Obj("value", Str(g.word()), "operator", Str("containsAny"), "limit", Int(int64(1+g.r.Intn(75))), "filter", x))
+	}
 }
 
 var selectPool = []string{"extra", "extra.l", "extra.l.0", "extra.l.1", "extra.l.x", "extra.l.*", "extra.n", "extra.n.x", "note", "note.x", "tags.0", "tags.x", "vec.0", "vec.*", "size.x", "price.0",
@@ -738,6 +792,27 @@ func deep(depth int, arr bool) *N {
 		}
 	}
 	return cur
+}
+
+// approxSize: encoded size of a body tree, roughly
+func approxSize(n *N) int {
+	switch n.K {
+	case 's', 'r', 'x':
+		return len(n.S) + 3
+	case 'a':
+		t := 3
+		for _, x := range n.A {
+			t += approxSize(x)
+		}
+		return t
+	case 'o':
+		t := 3
+		for _, kv := range n.O {
+			t += len(kv.K) + 3 + approxSize(kv.V)
+		}
+		return t
+	}
+	return 6
 }
 
 func (g *gen) resize(n *N, l int) {
@@ -869,6 +944,13 @@ func (g *gen) mutate(root *N) (kind, path string, jsonOnly, mpOnly bool) {
 			l := vh.Pick(g.r, []int{0, 1, len(cur.A) - 1, len(cur.A) + 1, 2, 3, 5, 2000, 2001, 4096, 4097, 101, 10001})
 			if l < 0 {
 				l = 0
+			}
+			// a batch of 10001 points of 4096 dimensions is a 200 MB body: it says nothing that the same count of
+			// small points does not say (the sweep sends those), and costs the run half a minute on a loaded machine
+			if len(cur.A) > 0 {
+				if per := approxSize(cur.A[0]); per*l > 24<<20 {
+					l = max((24<<20)/per, 101)
+				}
 			}
 			g.resize(cur, l)
 			return fmt.Sprintf("array-len-%d", l), path, false, false
